@@ -241,7 +241,7 @@ def run(ck: Checker):
             continue
         after = reachable(cfg14, [h.id], edge_ok=lambda ed: not ed.is_exc)
         msgdefs = [k for k in after if isinstance(cfg14.nodes[k].ast, ast.Assign) and any(is_name(t, 'msg') for t in cfg14.nodes[k].ast.targets)]
-        first = [k for k in msgdefs if '#ERROR' in norm_text(cfg14.nodes[k].ast)]
+        first = [k for k in msgdefs if '#ERROR' in norm_text(cfg14.nodes[k].ast)] + [k for k in after if isinstance(cfg14.nodes[k].ast, ast.Return) and cfg14.nodes[k].ast.value is not None and '#ERROR' in norm_text(cfg14.nodes[k].ast.value)]
         for k in after:
             nk = cfg14.nodes[k]
             a = header_expr(nk)
